@@ -66,7 +66,23 @@ def corr (prop unitsPath runPath : String) : IO UInt32 := do
           st := { st with skipped := st.skipped + 1 }
         else
           perUnit := perUnit.insert name (perUnit.getD name 0 + 1)
-          if ty == "f32" then
+          if ty == "i32" || ty == "u32" then
+            -- integer units: exact comparison of machine integers
+            let mut j := 0
+            let mut nontriv := false
+            for t in u.outs do
+              let g := (outs.getD j 0).toUInt32
+              let m : UInt32 := if ty == "i32" then (t.eval i32Ops (mkEnv (ins.map fun b => b.toUInt32.toInt32))).toUInt32
+                                else t.eval u32Ops (mkEnv (ins.map fun b => b.toUInt32))
+              st := { st with comps := st.comps + 1 }
+              if m != g then
+                st := { st with mismatches := st.mismatches + 1 }
+                if st.msgs.size < 20 then
+                  st := { st with msgs := st.msgs.push s!"MISMATCH {name} {ty} comp {j} in {ins} model {m} glm {g}" }
+              if !(ins.any (· == (outs.getD j 0))) && (outs.getD j 0) != 0 then nontriv := true
+              j := j + 1
+            if nontriv then st := { st with nontrivial := st.nontrivial + 1 }
+          else if ty == "f32" then
             let env := mkEnv (ins.map fun b => Float32.ofBits b.toUInt32)
             let mut j := 0
             let mut nontriv := false
@@ -156,7 +172,7 @@ def spec (prop unitsPath : String) (seed : UInt64) : IO UInt32 := do
   let mut bad := 0
   let mut cex := 0
   let mut total := 0
-  for f in Spec.familiesOf prop do
+  for f in Spec.familiesOf prop ++ Spec.refutedOf prop do
     for ks in f.keys do
       total := total + 1
       if !(f.okAt look ks) then
@@ -180,7 +196,7 @@ def spec (prop unitsPath : String) (seed : UInt64) : IO UInt32 := do
             if !(m == s) && !(m.isNaN && s.isNaN) && !(isFrac && (m.isNaN || m.isInf || s.isNaN || s.isInf)) then
               found := true
               cex := cex + 1
-              IO.println s!"CEX {name} comp {j} in {xs.map (·.toBits)} model {m.toBits} spec {s.toBits}"
+              IO.println s!"CEX {name} comp {j} in {xs.map (·.toBits)} model {m.toBits} spec {s.toBits} fam {f.name} plain {f.isPlain || f.treeMode}"
         if !found then IO.println s!"NOCEX {name}"
   -- C01: vector overload vs renamed scalar overload
   if prop == "C01" then
@@ -210,8 +226,24 @@ def spec (prop unitsPath : String) (seed : UInt64) : IO UInt32 := do
   IO.println s!"SPEC prop={prop} units={total} failing={bad} cex={cex}"
   return (if bad == 0 then 0 else 1)
 
+/-- replay helper: apply a family's `post` to the outputs the real glm returned (as extra variables
+    1000+i) and compare with the specification:  driver postval <prop> <unit> <comp> <in bits…> -- <out bits…> -/
+def postval (prop unit : String) (comp : Nat) (ins outs : Array Float) : IO UInt32 := do
+  for f in Spec.familiesOf prop ++ Spec.refutedOf prop do
+    for ks in f.keys do
+      if f.unitName ks == unit && comp < f.nOut ks && !f.treeMode then
+        let env : Nat → Float := fun i => if i ≥ 1000 then outs.getD (i - 1000) 0.0 else ins.getD i 0.0
+        let g := (f.post ks (fun i => .var (1000 + i)) comp).eval f64Ops env
+        let s := (f.spec ks comp).eval f64Ops env
+        IO.println s!"POSTVAL {f.name} glm {g.toBits} spec {s.toBits}"
+  return 0
+
 def main (args : List String) : IO UInt32 := do
   match args with
+  | "postval" :: prop :: unit :: comp :: rest =>
+    let ins := (rest.takeWhile (· ≠ "--")).toArray.map fun t => Float.ofBits (t.toNat?.getD 0).toUInt64
+    let outs := ((rest.dropWhile (· ≠ "--")).drop 1).toArray.map fun t => Float.ofBits (t.toNat?.getD 0).toUInt64
+    postval prop unit (comp.toNat?.getD 0) ins outs
   | ["corr", prop, u, r] => corr prop u r
   | ["spec", prop, u, seed] => spec prop u (seed.toNat?.getD 0).toUInt64
   | _ => IO.eprintln "usage: driver corr <prop> <units> <run> | spec <prop> <units> <seed>"; return 2
